@@ -191,7 +191,9 @@ CHECKS.update({
              "the completion order are symbolic choices, all explored within the bound; for every schedule and every permutation of the "
              "item list the values equal the serial run's (proved for all bounds), each item alone gives the same value, the worker's "
              "model is unchanged after every task, the caller's model is unchanged; also when the same model object was screened "
-             "serially before with other bounds (nothing of an earlier call may survive in the process).",
+             "serially before with other bounds (nothing of an earlier call may survive in the process). find_blocked_reactions, "
+             "find_essential_genes / find_essential_reactions and loopless FVA through the same pool return the serial run's sets "
+             "(loopless: the same rows).",
         note="NOT claimed: the OptGP sampling sentence (float numerics) and the operating system's real scheduling / pickling across "
              "processes - the pool is a stub implementing the documented multiprocessing.Pool contract. Bounded: 2 (thorough 3) workers, "
              "3-4 items. " + NOTE_COMMON, ref="4/C14"),
